@@ -410,40 +410,7 @@ func checkC05(c *Ctx) {
 			"ViewSucceeded() only when the verified sync info is not a timeout; ViewStarted() on every path after NextView", join(bad))
 	}
 
-	// C05.12 a remote timeout is dropped before its sync info is used only because it did not verify
-	// (its sync info is the recurring way a lagging replica learns the peers' high QC and moves on)
-	{
-		fr := NewFlow(p, ort)
-		isAdv := func(in ssa.Instruction) bool {
-			ci, ok := in.(ssa.CallInstruction)
-			return ok && calleeIs(ci.Common(), advRoot) && fr.K.Key(ci.Common().Args[1]) == "p1."+kTOMsg+"SyncInfo"
-		}
-		var bad []string
-		n := 0
-		for _, r := range returnsOf(ort) {
-			if !fr.Reachable(r.Block()) {
-				continue
-			}
-			// returns reachable without passing advanceView(timeout.SyncInfo)
-			if cfgSearch(fr, nil, ort.Blocks[0], func(in ssa.Instruction) bool { return in == ssa.Instruction(r) }, isAdv, nil) == nil {
-				continue
-			}
-			n++
-			facts := fr.At(r)
-			failed := func(_ *Flow, fs FactSet) bool {
-				return notNilOf(fs, func(k string) bool { return strings.HasPrefix(k, kBaseVer) }) ||
-					falseOf(fs, func(k string) bool { return strings.Contains(k, "signedOnlyBy(") })
-			}
-			failedVerify := failed(fr, facts) || helperVerdictImplies(fr, facts, false, failed, 0)
-			if !failedVerify {
-				bad = append(bad, p.Pos(r.Pos()))
-			}
-		}
-		has := len(callsIn(ort, false, func(cc *ssa.CallCommon) bool { return calleeIs(cc, advRoot) })) >= 2
-		c.Check(len(bad) == 0 && has, "C05.12", "OnRemoteTimeout: only unverifiable timeouts are dropped before their sync info is used", p.FuncPos(ort),
-			itoa(n)+" early return(s), each on a failed signature / signer check; every other path calls advanceView(timeout.SyncInfo)",
-			"a verified timeout can be dropped at "+join(bad)+" before advanceView(timeout.SyncInfo): a lagging replica never learns the quorum's high QC")
-	}
+	c05DropOnlyUnverified(c, "C05.12")
 	// C05.13 a leader that caught up through sync info fetches the ancestors it lacks before proposing
 	if mp := p.Method("protocol/consensus", "Proposer", "markProposed"); mp != nil {
 		getF := p.Method("security/blockchain", "Blockchain", "Get")
@@ -481,4 +448,49 @@ func checkC05(c *Ctx) {
 	c.importFrom(checkC15, "C05.14", "C15.9", "C15.2", "C15.3")
 	c.importFrom(checkC08, "C05.4", "C08.5")
 	c.importFrom(checkC08, "C05.5", "C08.3")
+}
+
+// c05DropOnlyUnverified (C05.12, shared with C08.9): a remote timeout is dropped before its sync info is used only
+// because it did not verify (its sync info is the recurring way a lagging replica learns the peers' high QC and
+// moves on; and a verified timeout that is dropped never counts toward its view's certificate).
+func c05DropOnlyUnverified(c *Ctx, rule string) {
+	p := c.P
+	ort := p.Method("protocol/synchronizer", "Synchronizer", "OnRemoteTimeout")
+	advRoot := p.Method("protocol/synchronizer", "Synchronizer", "advanceView")
+	if ort == nil || advRoot == nil {
+		c.Unresolved(rule, "OnRemoteTimeout/advanceView", "anchor missing")
+		return
+	}
+	{
+		fr := NewFlow(p, ort)
+		isAdv := func(in ssa.Instruction) bool {
+			ci, ok := in.(ssa.CallInstruction)
+			return ok && calleeIs(ci.Common(), advRoot) && fr.K.Key(ci.Common().Args[1]) == "p1."+kTOMsg+"SyncInfo"
+		}
+		var bad []string
+		n := 0
+		for _, r := range returnsOf(ort) {
+			if !fr.Reachable(r.Block()) {
+				continue
+			}
+			// returns reachable without passing advanceView(timeout.SyncInfo)
+			if cfgSearch(fr, nil, ort.Blocks[0], func(in ssa.Instruction) bool { return in == ssa.Instruction(r) }, isAdv, nil) == nil {
+				continue
+			}
+			n++
+			facts := fr.At(r)
+			failed := func(_ *Flow, fs FactSet) bool {
+				return notNilOf(fs, func(k string) bool { return strings.HasPrefix(k, kBaseVer) }) ||
+					falseOf(fs, func(k string) bool { return strings.Contains(k, "signedOnlyBy(") })
+			}
+			failedVerify := failed(fr, facts) || helperVerdictImplies(fr, facts, false, failed, 0)
+			if !failedVerify {
+				bad = append(bad, p.Pos(r.Pos()))
+			}
+		}
+		has := len(callsIn(ort, false, func(cc *ssa.CallCommon) bool { return calleeIs(cc, advRoot) })) >= 2
+		c.Check(len(bad) == 0 && has, rule, "OnRemoteTimeout: only unverifiable timeouts are dropped before their sync info is used", p.FuncPos(ort),
+			itoa(n)+" early return(s), each on a failed signature / signer check; every other path calls advanceView(timeout.SyncInfo)",
+			"a verified timeout can be dropped at "+join(bad)+" before advanceView(timeout.SyncInfo): a lagging replica never learns the quorum's high QC")
+	}
 }
